@@ -54,13 +54,13 @@ pub fn cases(tier: Tier) -> Vec<Case> {
     let mut out = vec![];
     // every tree with <= 7 nodes (depth <= 4)
     for (i, s) in mk(4, 7).all().into_iter().enumerate() {
-        out.push(Case { t: s, layout: (i % 4) as u8, elim_first: i % 5 == 0 });
+        out.push(Case { t: s, layout: (i % 5) as u8, elim_first: i % 3 == 0 });
     }
     // larger trees: depth <= 3, 8-9 (thorough: 8-10) nodes, every keep-th
     let (big, keep) = if tier == Tier::Quick { (9, 37) } else { (10, 11) };
     for (i, s) in mk(3, big).all().into_iter().enumerate() {
         if s.n_nodes() >= 8 && i % keep == 0 {
-            out.push(Case { t: s, layout: (i % 4) as u8, elim_first: i % 5 == 0 });
+            out.push(Case { t: s, layout: (i % 5) as u8, elim_first: i % 3 == 0 });
         }
     }
     // terminals that coincide with a predicate (a terminal next to a decision holding the same matrix and bias)
@@ -73,7 +73,7 @@ pub fn cases(tier: Tier) -> Vec<Case> {
         partial: true,
     };
     for (i, s) in gp.all().into_iter().enumerate() {
-        out.push(Case { t: s, layout: (i % 4) as u8, elim_first: i % 5 == 0 });
+        out.push(Case { t: s, layout: (i % 5) as u8, elim_first: i % 3 == 0 });
     }
     // terminals with 2x2 matrices (storage layout matters for them), differing in one entry
     let m2 = |a: f64| Aff::new(vec![vec![1.0, a], vec![0.0, 1.0]], vec![0.5, -1.0]);
@@ -86,7 +86,7 @@ pub fn cases(tier: Tier) -> Vec<Case> {
         partial: true,
     };
     for (i, s) in g22.all().into_iter().enumerate() {
-        out.push(Case { t: s, layout: (i % 4) as u8, elim_first: i % 5 == 0 });
+        out.push(Case { t: s, layout: (i % 5) as u8, elim_first: i % 3 == 0 });
     }
     // terminals that are nearly, but not exactly, equal: a bias of 2^-60 against 0, a coefficient of 2^-60 against 0,
     // and two biases one unit in the last place apart (all chosen so that f64 evaluation stays exact)
@@ -100,11 +100,24 @@ pub fn cases(tier: Tier) -> Vec<Case> {
         partial: true,
     };
     for (i, s) in gn.all().into_iter().enumerate() {
-        out.push(Case { t: s, layout: (i % 4) as u8, elim_first: i % 5 == 0 });
+        out.push(Case { t: s, layout: (i % 5) as u8, elim_first: i % 3 == 0 });
+    }
+    // sibling terminals with different numbers of output rows, one a row-wise prefix of the other (such trees can
+    // be built through the public node API; the decisions between them must be kept)
+    let gm = TreeGen {
+        k: 2,
+        preds: vec![r1(&[1.0, 0.0], 0.0), r1(&[0.0, 1.0], 1.0)],
+        terms: vec![r1(&[1.0, 2.0], 0.0), Aff::new(vec![vec![1.0, 2.0], vec![0.0, 1.0]], vec![0.0, 1.0]), Aff::with_indim(vec![], vec![], 2)],
+        max_depth: 2,
+        max_nodes: 5,
+        partial: true,
+    };
+    for (i, s) in gm.all().into_iter().enumerate() {
+        out.push(Case { t: s, layout: (i % 5) as u8, elim_first: false });
     }
     for levels in 1..=4 {
         for odd in [None, Some(&t1), Some(&t2)] {
-            for layout in 0..4u8 {
+            for layout in 0..5u8 {
                 out.push(Case { t: tower(levels, &t, odd), layout, elim_first: false });
                 out.push(Case { t: tower(levels, &t, odd), layout, elim_first: true });
             }
@@ -163,9 +176,12 @@ pub fn run_case(c: &Case) -> CaseOut {
     if sa.nodes.len() > sb.nodes.len() {
         viol(&mut out, "grew", format!("reduce increased the number of nodes {} -> {}", sb.nodes.len(), sa.nodes.len()));
     }
-    if let Err((tag, msg)) = well_formed(&sa, None) {
-        viol(&mut out, "malformed", format!("{tag}: {msg}"));
-        return out;
+    // reduce must not break a well-formed tree (trees of the mixed-output family are not well-formed to begin with)
+    if well_formed(&sb, None).is_ok() {
+        if let Err((tag, msg)) = well_formed(&sa, None) {
+            viol(&mut out, "malformed", format!("{tag}: {msg}"));
+            return out;
+        }
     }
     // function preserved, exactly, everywhere
     let imp = TreeSide(&sa);
@@ -241,7 +257,7 @@ pub fn run(tier: Tier) -> Report {
     let total = par_cases(&cs, |_, c| run_case(c));
     rep.absorb(total);
     rep.set("bound", match tier {
-        Tier::Quick => "all binary trees with <= 7 nodes and depth <= 4, every 37th tree with 8-9 nodes and depth <= 3, total and partial, over 2 predicates and 3 terminal maps {t, t+bias, t with one coefficient changed}; all trees with <= 6 nodes whose terminals may equal a predicate; towers of equal leaves with 1-4 levels (optionally one odd leaf); three arena layouts incl. re-used indices",
+        Tier::Quick => "all binary trees with <= 7 nodes and depth <= 4, every 37th tree with 8-9 nodes and depth <= 3, total and partial, over 2 predicates and 3 terminal maps {t, t+bias, t with one coefficient changed}; all trees with <= 6 nodes whose terminals may equal a predicate; towers of equal leaves with 1-4 levels (optionally one odd leaf); five storage layouts (depth-first, breadth-first, re-used indices, column-major, interleaved siblings)",
         Tier::Thorough => "same with every 11th tree with 8-10 nodes, predicate-equal terminals up to 7 nodes",
     });
     rep.assume("exact comparison (reduce is syntactic): before == after on every face of the predicates' arrangement");
